@@ -399,10 +399,28 @@ func c06Body(t *rapid.T) {
 	if class == "unknown_partition" {
 		w.targets[ta].AddPartition("default", "ca", "p_unknown")
 	}
+	if known("F-C05-resume-overtaken-by-stale-pause") {
+		// a resume issued while the paused incarnation is still shutting down can be overtaken by its late failure (known finding
+		// of C05: running task without readers): the resume is issued at rest
+		quiesce.WaitStable(func() int { return w.targets[0].NumCalls() + w.targets[1].NumCalls() }, 4*time.Second)
+		st.Count("resumes_issued_only_at_rest(F-C05-resume-overtaken-by-stale-pause)", 1)
+	}
 	if r := w.inc.post(t, "resume", map[string]any{"task_id": idA}); r.Code != 200 {
 		t.Fatalf("VERIF-VIOLATION C06 [%s]: resume of the paused task failed after the fault was cleared: %s", desc, r.Raw)
 	}
-	if !waitTicking(p, pchs, 12*time.Second, arrivedAll(ta, failA)) {
+	arrivedA := waitTicking(p, pchs, 12*time.Second, arrivedAll(ta, failA))
+	for round := 0; round < 2 && !arrivedA; round++ {
+		// a late error of the stopped incarnation may pause the task again after the resume (visible: Paused with a reason);
+		// the statement is about the resumed task, so it is resumed again before delivery is judged (counted)
+		if s, _ := taskView(w, t, idA); s == "Running" {
+			break
+		}
+		st.Count("task_paused_again_by_a_late_error_of_the_stopped_incarnation(resumed again)", 1)
+		quiesce.WaitStable(func() int { return w.targets[0].NumCalls() + w.targets[1].NumCalls() }, 4*time.Second)
+		w.inc.post(t, "resume", map[string]any{"task_id": idA})
+		arrivedA = waitTicking(p, pchs, 12*time.Second, arrivedAll(ta, failA))
+	}
+	if !arrivedA {
 		if _, quiet := quiesce.WaitStable(func() int { return w.targets[0].NumCalls() + w.targets[1].NumCalls() }, 6*time.Second); quiet {
 			missing := 0
 			a2 := acceptedRows(w.targets[ta])
